@@ -72,6 +72,10 @@ func (p Parser) Parse(src io.Reader) (f File) {
 
 		if decodeErr != nil {
 			f.Error = tryDecodingYamlError(decodeErr)
+			// YAML reports errors found at the end of the stream one line past the last line of the file.
+			if cr.lineno > 0 && f.Error.Line > cr.lineno {
+				f.Error.Line = cr.lineno
+			}
 			return f
 		}
 		index++
